@@ -2,6 +2,7 @@
 """Prints the markdown table of /verif/seeded/*/meta.json for DESIGN.md section 14.7."""
 import json, glob, os
 rows = []
+stats = {}
 for mp in sorted(glob.glob("/verif/seeded/*/meta.json")):
     m = json.load(open(mp))
     hist = m.get("detection_history", [])
@@ -13,6 +14,13 @@ for mp in sorted(glob.glob("/verif/seeded/*/meta.json")):
     st = "caught at once" if first else ("caught after strengthening" if now else "**missed**")
     if m.get("strengthened_before_first_run") and now:
         st = "caught after strengthening (" + m["strengthened_before_first_run"] + ")"
+    rnd = {"a": 1, "b": 1, "c": 2, "d": 2, "e": 3, "f": 4}[m["id"][-1]]
+    k = "at once" if st == "caught at once" else ("missed" if st == "**missed**" else "after strengthening")
+    stats.setdefault(rnd, {"at once": 0, "after strengthening": 0, "missed": 0})[k] += 1
     rows.append(f"| {m['id']} | {m['property']} | {summ} | {', '.join(now) or '-'} | {st} |")
 print("| seed | property | change | caught by | status |\n|---|---|---|---|---|")
 print("\n".join(rows))
+print()
+for rnd in sorted(stats):
+    t = stats[rnd]
+    print(f"Round {rnd}: {sum(t.values())} changes kept - {t['at once']} caught at once, {t['after strengthening']} after strengthening, {t['missed']} missed.")
